@@ -253,8 +253,13 @@ func cmdCheck(id string, args []string) int {
 		if len(res.Stats.Reaches) == 0 && res.Err == "" && len(res.Verdicts) == 0 {
 			inconclusive = append(inconclusive, fmt.Sprintf("%s: vacuous (no Reach witness on any path)", res.Name))
 		}
+		settled := map[string]bool{}   // assertion ids with a reproduced counterexample
+		pendingSp := map[string]string{} // assertion id -> spurious note of the last failed alternative
 		for n, v := range res.Verdicts {
 			allVerdicts = append(allVerdicts, v)
+			if settled[v.Assertion] {
+				continue // an earlier alternative of the same assertion already reproduced
+			}
 			if v.Kind == "unknown" {
 				inconclusive = append(inconclusive, fmt.Sprintf("%s: %s %s", res.Name, v.Assertion, v.Msg))
 				continue
@@ -278,9 +283,11 @@ func cmdCheck(id string, args []string) int {
 				annotateCex(path, false, "schedule-dependent; not hit natively in 40 attempts: "+note)
 			}
 			if !reproduced {
-				spurious = append(spurious, fmt.Sprintf("%s %s: model did not reproduce natively (%s)", res.Name, v.Assertion, note))
+				pendingSp[v.Assertion] = fmt.Sprintf("%s %s: model did not reproduce natively (%s)", res.Name, v.Assertion, note)
 				continue
 			}
+			settled[v.Assertion] = true
+			delete(pendingSp, v.Assertion)
 			if kf := known.match(id, v.Assertion); kf != nil {
 				knownLines = append(knownLines, fmt.Sprintf("KNOWN-FINDING: property=%s %s [%s] %s", id, v.Assertion, kf.Class, kf.Witness))
 			} else {
@@ -289,6 +296,14 @@ func cmdCheck(id string, args []string) int {
 					fmt.Fprintf(os.Stderr, "  %s: %s at %s (%s)\n", v.Assertion, v.Msg, v.Pos, note)
 				}
 			}
+		}
+		spKeys := make([]string, 0, len(pendingSp))
+		for k := range pendingSp {
+			spKeys = append(spKeys, k)
+		}
+		sort.Strings(spKeys)
+		for _, k := range spKeys {
+			spurious = append(spurious, pendingSp[k])
 		}
 	}
 	for _, l := range knownLines {
